@@ -56,14 +56,13 @@ func (r *bytesReader) Read(data []byte) (int, error) {
 
 // Buffer holds an in-memory implementation of ociregistry.BlobWriter.
 type Buffer struct {
-	commit           func(b *Buffer) error
-	mu               sync.Mutex
-	buf              []byte
-	checkStartOffset int64
-	uuid             string
-	committed        bool
-	desc             ociregistry.Descriptor
-	commitErr        error
+	commit    func(b *Buffer) error
+	mu        sync.Mutex
+	buf       []byte
+	uuid      string
+	committed bool
+	desc      ociregistry.Descriptor
+	commitErr error
 	// committedData holds the data as it was when it was
 	// successfully committed.
 	committedData []byte
@@ -88,10 +87,26 @@ func NewBuffer(commit func(b *Buffer) error, uuid string) *Buffer {
 	}
 }
 
-func (b *Buffer) setCheckStartOffset(offset int64) {
-	b.mu.Lock()
-	defer b.mu.Unlock()
-	b.checkStartOffset = offset
+// resumedWriter is a handle on an upload session, as returned by
+// [Registry.PushBlobChunkedResume]. The offset it was opened with
+// is checked on its own first write, independently of any other
+// handle that's open on the same session.
+type resumedWriter struct {
+	*Buffer
+	mu               sync.Mutex
+	checkStartOffset int64
+}
+
+// Write implements io.Writer by writing some data to the session's buffer.
+func (w *resumedWriter) Write(data []byte) (int, error) {
+	w.mu.Lock()
+	defer w.mu.Unlock()
+	n, err := w.Buffer.write(w.checkStartOffset, data)
+	if err == nil {
+		// Only check on the first write, since it's the start offset.
+		w.checkStartOffset = -1
+	}
+	return n, err
 }
 
 func (b *Buffer) Cancel() error {
@@ -137,15 +152,19 @@ func (b *Buffer) GetBlob() (ociregistry.Descriptor, []byte, error) {
 
 // Write implements io.Writer by writing some data to the blob.
 func (b *Buffer) Write(data []byte) (int, error) {
+	return b.write(-1, data)
+}
+
+// write appends data to the buffer after checking that
+// the buffer currently holds offset bytes, unless offset is -1.
+func (b *Buffer) write(offset int64, data []byte) (int, error) {
 	b.mu.Lock()
 	defer b.mu.Unlock()
-	if offset := b.checkStartOffset; offset != -1 {
+	if offset != -1 {
 		// Can't call Buffer.Size, since we are already holding the mutex.
 		if int64(len(b.buf)) != offset {
 			return 0, fmt.Errorf("invalid offset %d in resumed upload (actual offset %d): %w", offset, len(b.buf), ociregistry.ErrRangeInvalid)
 		}
-		// Only check on the first write, since it's the start offset.
-		b.checkStartOffset = -1
 	}
 	b.buf = append(b.buf, data...)
 	return len(data), nil
